@@ -529,6 +529,9 @@ func runStrutil(cfg Cfg) {
 	// ---- inputs
 	var inputs [][]byte
 	allStrings(shAlphabet, maxLen, func(b []byte) { inputs = append(inputs, b); s.Count("input.exhaustive") })
+	// bytes a rewrite might use as "cannot occur" placeholders, mixed with quotes: every string up to
+	// length 5 over ' 0xff 0x01 0x7f a
+	allStrings([]byte{'\'', 0xff, 0x01, 0x7f, 'a'}, 5, func(b []byte) { inputs = append(inputs, b); s.Count("input.exhaustive-placeholders") })
 	allStrings(shAlphabet, maxLen-1, func(b []byte) {
 		inputs = append(inputs, append([]byte("~/"), b...))
 		s.Count("input.tilde-prefix")
